@@ -1963,6 +1963,14 @@ class World:
             b = self.A.get(hb)
             if b is not None and b.size and np.shares_memory(b, a):
                 self.grad_poisoned = True  # (guard off) an operand of a recorded op was overwritten
+        # ... or memory of a tensor the caller no longer holds but a live op still does
+        for rec in self.oprecs.values():
+            if rec.ref() is None:
+                continue
+            for r in list(rec.arrs) + list(rec.bases):
+                b = r()
+                if b is not None and b.size and a.size and np.shares_memory(b, a):
+                    self.grad_poisoned = True
         return Outcome("ok")
 
     # ------------------------------------------------------------------ save / load (S6)
